@@ -57,9 +57,13 @@ def pool : Nat → N
   | 0 => .file [] {}
   | 1 => .file [] { mode := 0o640 }
   | 2 => .dir {} .nil
-  | _ => .dir { mode := 0o750, mtime := 2 }
+  | 3 => .dir { mode := 0o750, mtime := 2 }
       (.cons "f" (.file [] { mode := 0o600 })
         (.cons "y" (.dir {} (.cons "g" (.file [] {}) .nil)) .nil))
+  | 4 => .file "raw".toUTF8.toList {}
+  | 5 => .file "hi".toUTF8.toList { mode := 0o644 }
+  | 6 => .file "pb".toUTF8.toList {}
+  | _ => .dir {} (.cons "f" (.file "R".toUTF8.toList {}) (.cons "g" (.file "pbg".toUTF8.toList {}) .nil))
 
 def errStr : Err → String
   | .notfound => "notfound"
@@ -95,8 +99,8 @@ def parseOp (ts : List String) : Option Op :=
   | ["rm", p] => some (.rm (parsePath p))
   | ["chmod", p, mode] => some (.chmod (parsePath p).comps (parseOct mode))
   | ["touch", p, mt] => some (.touch (parsePath p).comps mt.toNat!)
-  | ["write", p, off, b, sync] => some (.write (parsePath p).comps off.toNat! (unhex b) (sync == "1"))
-  | ["trunc", p, size] => some (.trunc (parsePath p).comps size.toNat!)
+  | ["write", p, off, b, mode] => some (.write (parsePath p).comps off.toNat! (unhex b) (mode != "0"))
+  | ["trunc", p, size, mode] => some (.trunc (parsePath p).comps size.toNat! (mode != "0"))
   | ["read", p] => some (.read (parsePath p).comps)
   | ["flush", p] => some (.flush (parsePath p).comps)
   | ["stat", p] => some (.stat (parsePath p).comps)
